@@ -12,6 +12,7 @@
 -/
 import Proofs.Lemmas.Quiet
 import Proofs.C02
+import Proofs.C07
 
 namespace C12
 open Jesse Jesse.Eng Jesse.Gen Jesse.Acc QuietLemmas
@@ -70,5 +71,43 @@ example : C02.demoEngine.err = none ∧ (∀ c ∈ quietChunk, c.Valid) ∧ Stor
 
 /-- and the conclusion is not trivial: both simulators moved the current price to the last close -/
 example : ((simulateChunk C02.idle 50 C02.demoEngine 0 quietChunk).w.pos.map (·.current)) = [some 100] := by decide +kernel
+
+/-! ### the candle stores of two runs
+
+The run-level invariant of C07 (`EInv`, kept by both simulators for every strategy: `C07.runStepN_all`,
+`C07.runSkipN_all`) determines what a reader gets from the store, and on a window boundary the stored arrays
+themselves.  So two engines — with different strategy memories, different order books, different histories of fills,
+e.g. the normal and the fast run of one session — whose 1m arrays hold the same minutes cannot differ in any candle a
+strategy can read. -/
+
+theorem stores_agree {M M' : Type} [Inhabited M] [Inhabited M'] (eA : Engine M) (eB : Engine M') (sym : Nat) (t0 : Int)
+    (rows : List Candle) (m : Nat)
+    (hcfg : C07.tfsRaw eB.cfg sym = C07.tfsRaw eA.cfg sym) (hal : C07.AlignedCfg eA.cfg sym t0)
+    (hA : C07.EInv eA sym t0 rows) (hB : C07.EInv eB sym t0 rows) (hm : m ∈ C07.tfsRaw eA.cfg sym) :
+    (storeOf eA sym).short = (storeOf eB sym).short ∧
+    Store.getCandles (storeOf eA sym).short (longOf (storeOf eA sym) m) m
+      = Store.getCandles (storeOf eB sym).short (longOf (storeOf eB sym) m) m ∧
+    Store.getCurrentCandle (storeOf eA sym).short (longOf (storeOf eA sym) m) m
+      = Store.getCurrentCandle (storeOf eB sym).short (longOf (storeOf eB sym) m) m ∧
+    (rows.length % m = 0 → longOf (storeOf eA sym) m = longOf (storeOf eB sym) m) := by
+  have halB : C07.AlignedCfg eB.cfg sym t0 := by
+    unfold C07.AlignedCfg at hal ⊢
+    rw [hcfg]; exact hal
+  have hmB : m ∈ C07.tfsRaw eB.cfg sym := by rw [hcfg]; exact hm
+  obtain ⟨a1, a2⟩ := C07.reader_sees_aggregates eA sym t0 rows m hal hA hm
+  obtain ⟨b1, b2⟩ := C07.reader_sees_aggregates eB sym t0 rows m halB hB hmB
+  refine ⟨hA.short.trans hB.short.symm, a1.trans b1.symm, a2.trans b2.symm, ?_⟩
+  intro hb
+  obtain ⟨pa, hla, hpa⟩ := hA.inv m hm
+  obtain ⟨pb, hlb, hpb⟩ := hB.inv m hmB
+  have ea : pa = [] := by
+    rcases hpa with h | ⟨_, _, _, hne, _⟩
+    · exact h
+    · exact absurd hb hne
+  have eb : pb = [] := by
+    rcases hpb with h | ⟨_, _, _, hne, _⟩
+    · exact h
+    · exact absurd hb hne
+  rw [hla, hlb, ea, eb]
 
 end C12
